@@ -1,171 +1,19 @@
 #![allow(warnings)]
 pub mod rt;
 #[path = "gen/m0t.rs"] mod m0t;
-#[path = "gen/m0a.rs"] mod m0a;
 #[path = "gen/m1t.rs"] mod m1t;
-#[path = "gen/m1a.rs"] mod m1a;
 #[path = "gen/m2t.rs"] mod m2t;
-#[path = "gen/m2a.rs"] mod m2a;
 #[path = "gen/m3t.rs"] mod m3t;
-#[path = "gen/m3a.rs"] mod m3a;
 #[path = "gen/m4t.rs"] mod m4t;
-#[path = "gen/m4a.rs"] mod m4a;
 #[path = "gen/m5t.rs"] mod m5t;
-#[path = "gen/m5a.rs"] mod m5a;
 #[path = "gen/m6t.rs"] mod m6t;
-#[path = "gen/m6a.rs"] mod m6a;
 #[path = "gen/m7t.rs"] mod m7t;
-#[path = "gen/m7a.rs"] mod m7a;
 #[path = "gen/m8t.rs"] mod m8t;
-#[path = "gen/m8a.rs"] mod m8a;
 #[path = "gen/m9t.rs"] mod m9t;
-#[path = "gen/m9a.rs"] mod m9a;
 #[path = "gen/m10t.rs"] mod m10t;
-#[path = "gen/m10a.rs"] mod m10a;
 #[path = "gen/m11t.rs"] mod m11t;
-#[path = "gen/m11a.rs"] mod m11a;
 #[path = "gen/m12t.rs"] mod m12t;
-#[path = "gen/m12a.rs"] mod m12a;
 #[path = "gen/m13t.rs"] mod m13t;
-#[path = "gen/m13a.rs"] mod m13a;
-#[path = "gen/m14t.rs"] mod m14t;
-#[path = "gen/m14a.rs"] mod m14a;
-#[path = "gen/m15t.rs"] mod m15t;
-#[path = "gen/m15a.rs"] mod m15a;
-#[path = "gen/m17t.rs"] mod m17t;
-#[path = "gen/m17a.rs"] mod m17a;
-#[path = "gen/m21t.rs"] mod m21t;
-#[path = "gen/m21a.rs"] mod m21a;
-#[path = "gen/m25t.rs"] mod m25t;
-#[path = "gen/m25a.rs"] mod m25a;
-#[path = "gen/m26t.rs"] mod m26t;
-#[path = "gen/m26a.rs"] mod m26a;
-#[path = "gen/m31t.rs"] mod m31t;
-#[path = "gen/m31a.rs"] mod m31a;
-#[path = "gen/m32t.rs"] mod m32t;
-#[path = "gen/m32a.rs"] mod m32a;
-#[path = "gen/m35t.rs"] mod m35t;
-#[path = "gen/m35a.rs"] mod m35a;
-#[path = "gen/m36t.rs"] mod m36t;
-#[path = "gen/m36a.rs"] mod m36a;
-#[path = "gen/m39t.rs"] mod m39t;
-#[path = "gen/m39a.rs"] mod m39a;
-#[path = "gen/m41t.rs"] mod m41t;
-#[path = "gen/m41a.rs"] mod m41a;
-#[path = "gen/m42t.rs"] mod m42t;
-#[path = "gen/m42a.rs"] mod m42a;
-#[path = "gen/m43t.rs"] mod m43t;
-#[path = "gen/m43a.rs"] mod m43a;
-#[path = "gen/m50t.rs"] mod m50t;
-#[path = "gen/m50a.rs"] mod m50a;
-#[path = "gen/m57t.rs"] mod m57t;
-#[path = "gen/m57a.rs"] mod m57a;
-#[path = "gen/m58t.rs"] mod m58t;
-#[path = "gen/m58a.rs"] mod m58a;
-#[path = "gen/m59t.rs"] mod m59t;
-#[path = "gen/m59a.rs"] mod m59a;
-#[path = "gen/m61t.rs"] mod m61t;
-#[path = "gen/m61a.rs"] mod m61a;
-#[path = "gen/m65t.rs"] mod m65t;
-#[path = "gen/m65a.rs"] mod m65a;
-#[path = "gen/m70t.rs"] mod m70t;
-#[path = "gen/m70a.rs"] mod m70a;
-#[path = "gen/m71t.rs"] mod m71t;
-#[path = "gen/m71a.rs"] mod m71a;
-#[path = "gen/m72t.rs"] mod m72t;
-#[path = "gen/m72a.rs"] mod m72a;
-#[path = "gen/m75t.rs"] mod m75t;
-#[path = "gen/m75a.rs"] mod m75a;
-#[path = "gen/m77t.rs"] mod m77t;
-#[path = "gen/m77a.rs"] mod m77a;
-#[path = "gen/m80t.rs"] mod m80t;
-#[path = "gen/m80a.rs"] mod m80a;
-#[path = "gen/m82t.rs"] mod m82t;
-#[path = "gen/m82a.rs"] mod m82a;
-#[path = "gen/m84t.rs"] mod m84t;
-#[path = "gen/m84a.rs"] mod m84a;
-#[path = "gen/m85t.rs"] mod m85t;
-#[path = "gen/m85a.rs"] mod m85a;
-#[path = "gen/m87t.rs"] mod m87t;
-#[path = "gen/m87a.rs"] mod m87a;
-#[path = "gen/m89t.rs"] mod m89t;
-#[path = "gen/m89a.rs"] mod m89a;
-#[path = "gen/m90t.rs"] mod m90t;
-#[path = "gen/m90a.rs"] mod m90a;
-#[path = "gen/m91t.rs"] mod m91t;
-#[path = "gen/m91a.rs"] mod m91a;
-#[path = "gen/m92t.rs"] mod m92t;
-#[path = "gen/m92a.rs"] mod m92a;
-#[path = "gen/m94t.rs"] mod m94t;
-#[path = "gen/m94a.rs"] mod m94a;
-#[path = "gen/m96t.rs"] mod m96t;
-#[path = "gen/m96a.rs"] mod m96a;
-#[path = "gen/m99t.rs"] mod m99t;
-#[path = "gen/m99a.rs"] mod m99a;
-#[path = "gen/m100t.rs"] mod m100t;
-#[path = "gen/m100a.rs"] mod m100a;
-#[path = "gen/m106t.rs"] mod m106t;
-#[path = "gen/m106a.rs"] mod m106a;
-#[path = "gen/m107t.rs"] mod m107t;
-#[path = "gen/m107a.rs"] mod m107a;
-#[path = "gen/m115t.rs"] mod m115t;
-#[path = "gen/m115a.rs"] mod m115a;
-#[path = "gen/m116t.rs"] mod m116t;
-#[path = "gen/m116a.rs"] mod m116a;
-#[path = "gen/m120t.rs"] mod m120t;
-#[path = "gen/m120a.rs"] mod m120a;
-#[path = "gen/m121t.rs"] mod m121t;
-#[path = "gen/m121a.rs"] mod m121a;
-#[path = "gen/m122t.rs"] mod m122t;
-#[path = "gen/m122a.rs"] mod m122a;
-#[path = "gen/m124t.rs"] mod m124t;
-#[path = "gen/m124a.rs"] mod m124a;
-#[path = "gen/m125t.rs"] mod m125t;
-#[path = "gen/m125a.rs"] mod m125a;
-#[path = "gen/m126t.rs"] mod m126t;
-#[path = "gen/m126a.rs"] mod m126a;
-#[path = "gen/m128t.rs"] mod m128t;
-#[path = "gen/m128a.rs"] mod m128a;
-#[path = "gen/m130t.rs"] mod m130t;
-#[path = "gen/m130a.rs"] mod m130a;
-#[path = "gen/m131t.rs"] mod m131t;
-#[path = "gen/m131a.rs"] mod m131a;
-#[path = "gen/m133t.rs"] mod m133t;
-#[path = "gen/m133a.rs"] mod m133a;
-#[path = "gen/m135t.rs"] mod m135t;
-#[path = "gen/m135a.rs"] mod m135a;
-#[path = "gen/m138t.rs"] mod m138t;
-#[path = "gen/m138a.rs"] mod m138a;
-#[path = "gen/m139t.rs"] mod m139t;
-#[path = "gen/m139a.rs"] mod m139a;
-#[path = "gen/m140t.rs"] mod m140t;
-#[path = "gen/m140a.rs"] mod m140a;
-#[path = "gen/m141t.rs"] mod m141t;
-#[path = "gen/m141a.rs"] mod m141a;
-#[path = "gen/m145t.rs"] mod m145t;
-#[path = "gen/m145a.rs"] mod m145a;
-#[path = "gen/m147t.rs"] mod m147t;
-#[path = "gen/m147a.rs"] mod m147a;
-#[path = "gen/m149t.rs"] mod m149t;
-#[path = "gen/m149a.rs"] mod m149a;
-#[path = "gen/m150t.rs"] mod m150t;
-#[path = "gen/m150a.rs"] mod m150a;
-#[path = "gen/m151t.rs"] mod m151t;
-#[path = "gen/m151a.rs"] mod m151a;
-#[path = "gen/m154t.rs"] mod m154t;
-#[path = "gen/m154a.rs"] mod m154a;
-#[path = "gen/m156t.rs"] mod m156t;
-#[path = "gen/m156a.rs"] mod m156a;
-#[path = "gen/m157t.rs"] mod m157t;
-#[path = "gen/m157a.rs"] mod m157a;
-#[path = "gen/m159t.rs"] mod m159t;
-#[path = "gen/m159a.rs"] mod m159a;
-#[path = "gen/m160t.rs"] mod m160t;
-#[path = "gen/m160a.rs"] mod m160a;
-#[path = "gen/m162t.rs"] mod m162t;
-#[path = "gen/m162a.rs"] mod m162a;
-#[path = "gen/m164t.rs"] mod m164t;
-#[path = "gen/m164a.rs"] mod m164a;
 
 fn main() {
     use std::io::{BufRead, Write};
@@ -179,173 +27,20 @@ fn main() {
         let (m, p, items, orc) = (f.next().unwrap(), f.next().unwrap(), f.next().unwrap_or(""), f.next().unwrap_or(""));
         let r = match (m, p) {
         ("m0t", "E") => rt::run_case(items, orc, |it| m0t::EParser::new().parse(it)),
-        ("m0a", "E") => rt::run_case(items, orc, |it| m0a::EParser::new().parse(it)),
         ("m1t", "S") => rt::run_case(items, orc, |it| m1t::SParser::new().parse(it)),
-        ("m1a", "S") => rt::run_case(items, orc, |it| m1a::SParser::new().parse(it)),
         ("m2t", "S") => rt::run_case(items, orc, |it| m2t::SParser::new().parse(it)),
-        ("m2a", "S") => rt::run_case(items, orc, |it| m2a::SParser::new().parse(it)),
         ("m3t", "S") => rt::run_case(items, orc, |it| m3t::SParser::new().parse(it)),
-        ("m3a", "S") => rt::run_case(items, orc, |it| m3a::SParser::new().parse(it)),
         ("m4t", "S") => rt::run_case(items, orc, |it| m4t::SParser::new().parse(it)),
-        ("m4a", "S") => rt::run_case(items, orc, |it| m4a::SParser::new().parse(it)),
         ("m5t", "S") => rt::run_case(items, orc, |it| m5t::SParser::new().parse(it)),
-        ("m5a", "S") => rt::run_case(items, orc, |it| m5a::SParser::new().parse(it)),
         ("m6t", "S") => rt::run_case(items, orc, |it| m6t::SParser::new().parse(it)),
-        ("m6a", "S") => rt::run_case(items, orc, |it| m6a::SParser::new().parse(it)),
         ("m7t", "P") => rt::run_case(items, orc, |it| m7t::PParser::new().parse(it)),
-        ("m7a", "P") => rt::run_case(items, orc, |it| m7a::PParser::new().parse(it)),
         ("m8t", "S") => rt::run_case(items, orc, |it| m8t::SParser::new().parse(it)),
-        ("m8a", "S") => rt::run_case(items, orc, |it| m8a::SParser::new().parse(it)),
         ("m9t", "S") => rt::run_case(items, orc, |it| m9t::SParser::new().parse(it)),
-        ("m9a", "S") => rt::run_case(items, orc, |it| m9a::SParser::new().parse(it)),
         ("m10t", "S") => rt::run_case(items, orc, |it| m10t::SParser::new().parse(it)),
-        ("m10a", "S") => rt::run_case(items, orc, |it| m10a::SParser::new().parse(it)),
         ("m11t", "A") => rt::run_case(items, orc, |it| m11t::AParser::new().parse(it)),
         ("m11t", "B") => rt::run_case(items, orc, |it| m11t::BParser::new().parse(it)),
-        ("m11a", "A") => rt::run_case(items, orc, |it| m11a::AParser::new().parse(it)),
-        ("m11a", "B") => rt::run_case(items, orc, |it| m11a::BParser::new().parse(it)),
         ("m12t", "S") => rt::run_case(items, orc, |it| m12t::SParser::new().parse(it)),
-        ("m12a", "S") => rt::run_case(items, orc, |it| m12a::SParser::new().parse(it)),
         ("m13t", "S") => rt::run_case(items, orc, |it| m13t::SParser::new().parse(it)),
-        ("m13a", "S") => rt::run_case(items, orc, |it| m13a::SParser::new().parse(it)),
-        ("m14t", "S") => rt::run_case(items, orc, |it| m14t::SParser::new().parse(it)),
-        ("m14a", "S") => rt::run_case(items, orc, |it| m14a::SParser::new().parse(it)),
-        ("m15t", "S") => rt::run_case(items, orc, |it| m15t::SParser::new().parse(it)),
-        ("m15a", "S") => rt::run_case(items, orc, |it| m15a::SParser::new().parse(it)),
-        ("m17t", "N0") => rt::run_case(items, orc, |it| m17t::N0Parser::new().parse(it)),
-        ("m17a", "N0") => rt::run_case(items, orc, |it| m17a::N0Parser::new().parse(it)),
-        ("m21t", "N0") => rt::run_case(items, orc, |it| m21t::N0Parser::new().parse(it)),
-        ("m21a", "N0") => rt::run_case(items, orc, |it| m21a::N0Parser::new().parse(it)),
-        ("m25t", "N0") => rt::run_case(items, orc, |it| m25t::N0Parser::new().parse(it)),
-        ("m25a", "N0") => rt::run_case(items, orc, |it| m25a::N0Parser::new().parse(it)),
-        ("m26t", "N0") => rt::run_case(items, orc, |it| m26t::N0Parser::new().parse(it)),
-        ("m26a", "N0") => rt::run_case(items, orc, |it| m26a::N0Parser::new().parse(it)),
-        ("m31t", "N0") => rt::run_case(items, orc, |it| m31t::N0Parser::new().parse(it)),
-        ("m31a", "N0") => rt::run_case(items, orc, |it| m31a::N0Parser::new().parse(it)),
-        ("m32t", "N0") => rt::run_case(items, orc, |it| m32t::N0Parser::new().parse(it)),
-        ("m32a", "N0") => rt::run_case(items, orc, |it| m32a::N0Parser::new().parse(it)),
-        ("m35t", "N0") => rt::run_case(items, orc, |it| m35t::N0Parser::new().parse(it)),
-        ("m35a", "N0") => rt::run_case(items, orc, |it| m35a::N0Parser::new().parse(it)),
-        ("m36t", "N0") => rt::run_case(items, orc, |it| m36t::N0Parser::new().parse(it)),
-        ("m36a", "N0") => rt::run_case(items, orc, |it| m36a::N0Parser::new().parse(it)),
-        ("m39t", "N0") => rt::run_case(items, orc, |it| m39t::N0Parser::new().parse(it)),
-        ("m39a", "N0") => rt::run_case(items, orc, |it| m39a::N0Parser::new().parse(it)),
-        ("m41t", "N0") => rt::run_case(items, orc, |it| m41t::N0Parser::new().parse(it)),
-        ("m41a", "N0") => rt::run_case(items, orc, |it| m41a::N0Parser::new().parse(it)),
-        ("m42t", "N0") => rt::run_case(items, orc, |it| m42t::N0Parser::new().parse(it)),
-        ("m42a", "N0") => rt::run_case(items, orc, |it| m42a::N0Parser::new().parse(it)),
-        ("m43t", "N0") => rt::run_case(items, orc, |it| m43t::N0Parser::new().parse(it)),
-        ("m43a", "N0") => rt::run_case(items, orc, |it| m43a::N0Parser::new().parse(it)),
-        ("m50t", "N0") => rt::run_case(items, orc, |it| m50t::N0Parser::new().parse(it)),
-        ("m50a", "N0") => rt::run_case(items, orc, |it| m50a::N0Parser::new().parse(it)),
-        ("m57t", "N0") => rt::run_case(items, orc, |it| m57t::N0Parser::new().parse(it)),
-        ("m57a", "N0") => rt::run_case(items, orc, |it| m57a::N0Parser::new().parse(it)),
-        ("m58t", "N0") => rt::run_case(items, orc, |it| m58t::N0Parser::new().parse(it)),
-        ("m58a", "N0") => rt::run_case(items, orc, |it| m58a::N0Parser::new().parse(it)),
-        ("m59t", "N0") => rt::run_case(items, orc, |it| m59t::N0Parser::new().parse(it)),
-        ("m59a", "N0") => rt::run_case(items, orc, |it| m59a::N0Parser::new().parse(it)),
-        ("m61t", "N0") => rt::run_case(items, orc, |it| m61t::N0Parser::new().parse(it)),
-        ("m61a", "N0") => rt::run_case(items, orc, |it| m61a::N0Parser::new().parse(it)),
-        ("m65t", "N0") => rt::run_case(items, orc, |it| m65t::N0Parser::new().parse(it)),
-        ("m65a", "N0") => rt::run_case(items, orc, |it| m65a::N0Parser::new().parse(it)),
-        ("m70t", "N0") => rt::run_case(items, orc, |it| m70t::N0Parser::new().parse(it)),
-        ("m70a", "N0") => rt::run_case(items, orc, |it| m70a::N0Parser::new().parse(it)),
-        ("m71t", "N0") => rt::run_case(items, orc, |it| m71t::N0Parser::new().parse(it)),
-        ("m71a", "N0") => rt::run_case(items, orc, |it| m71a::N0Parser::new().parse(it)),
-        ("m72t", "N0") => rt::run_case(items, orc, |it| m72t::N0Parser::new().parse(it)),
-        ("m72a", "N0") => rt::run_case(items, orc, |it| m72a::N0Parser::new().parse(it)),
-        ("m75t", "N0") => rt::run_case(items, orc, |it| m75t::N0Parser::new().parse(it)),
-        ("m75a", "N0") => rt::run_case(items, orc, |it| m75a::N0Parser::new().parse(it)),
-        ("m77t", "N0") => rt::run_case(items, orc, |it| m77t::N0Parser::new().parse(it)),
-        ("m77a", "N0") => rt::run_case(items, orc, |it| m77a::N0Parser::new().parse(it)),
-        ("m80t", "N0") => rt::run_case(items, orc, |it| m80t::N0Parser::new().parse(it)),
-        ("m80a", "N0") => rt::run_case(items, orc, |it| m80a::N0Parser::new().parse(it)),
-        ("m82t", "N0") => rt::run_case(items, orc, |it| m82t::N0Parser::new().parse(it)),
-        ("m82a", "N0") => rt::run_case(items, orc, |it| m82a::N0Parser::new().parse(it)),
-        ("m84t", "N0") => rt::run_case(items, orc, |it| m84t::N0Parser::new().parse(it)),
-        ("m84a", "N0") => rt::run_case(items, orc, |it| m84a::N0Parser::new().parse(it)),
-        ("m85t", "N0") => rt::run_case(items, orc, |it| m85t::N0Parser::new().parse(it)),
-        ("m85a", "N0") => rt::run_case(items, orc, |it| m85a::N0Parser::new().parse(it)),
-        ("m87t", "N0") => rt::run_case(items, orc, |it| m87t::N0Parser::new().parse(it)),
-        ("m87a", "N0") => rt::run_case(items, orc, |it| m87a::N0Parser::new().parse(it)),
-        ("m89t", "N0") => rt::run_case(items, orc, |it| m89t::N0Parser::new().parse(it)),
-        ("m89a", "N0") => rt::run_case(items, orc, |it| m89a::N0Parser::new().parse(it)),
-        ("m90t", "N0") => rt::run_case(items, orc, |it| m90t::N0Parser::new().parse(it)),
-        ("m90a", "N0") => rt::run_case(items, orc, |it| m90a::N0Parser::new().parse(it)),
-        ("m91t", "N0") => rt::run_case(items, orc, |it| m91t::N0Parser::new().parse(it)),
-        ("m91a", "N0") => rt::run_case(items, orc, |it| m91a::N0Parser::new().parse(it)),
-        ("m92t", "N0") => rt::run_case(items, orc, |it| m92t::N0Parser::new().parse(it)),
-        ("m92a", "N0") => rt::run_case(items, orc, |it| m92a::N0Parser::new().parse(it)),
-        ("m94t", "N0") => rt::run_case(items, orc, |it| m94t::N0Parser::new().parse(it)),
-        ("m94a", "N0") => rt::run_case(items, orc, |it| m94a::N0Parser::new().parse(it)),
-        ("m96t", "N0") => rt::run_case(items, orc, |it| m96t::N0Parser::new().parse(it)),
-        ("m96a", "N0") => rt::run_case(items, orc, |it| m96a::N0Parser::new().parse(it)),
-        ("m99t", "N0") => rt::run_case(items, orc, |it| m99t::N0Parser::new().parse(it)),
-        ("m99a", "N0") => rt::run_case(items, orc, |it| m99a::N0Parser::new().parse(it)),
-        ("m100t", "N0") => rt::run_case(items, orc, |it| m100t::N0Parser::new().parse(it)),
-        ("m100a", "N0") => rt::run_case(items, orc, |it| m100a::N0Parser::new().parse(it)),
-        ("m106t", "N0") => rt::run_case(items, orc, |it| m106t::N0Parser::new().parse(it)),
-        ("m106a", "N0") => rt::run_case(items, orc, |it| m106a::N0Parser::new().parse(it)),
-        ("m107t", "N0") => rt::run_case(items, orc, |it| m107t::N0Parser::new().parse(it)),
-        ("m107a", "N0") => rt::run_case(items, orc, |it| m107a::N0Parser::new().parse(it)),
-        ("m115t", "N0") => rt::run_case(items, orc, |it| m115t::N0Parser::new().parse(it)),
-        ("m115a", "N0") => rt::run_case(items, orc, |it| m115a::N0Parser::new().parse(it)),
-        ("m116t", "N0") => rt::run_case(items, orc, |it| m116t::N0Parser::new().parse(it)),
-        ("m116a", "N0") => rt::run_case(items, orc, |it| m116a::N0Parser::new().parse(it)),
-        ("m120t", "N0") => rt::run_case(items, orc, |it| m120t::N0Parser::new().parse(it)),
-        ("m120a", "N0") => rt::run_case(items, orc, |it| m120a::N0Parser::new().parse(it)),
-        ("m121t", "N0") => rt::run_case(items, orc, |it| m121t::N0Parser::new().parse(it)),
-        ("m121a", "N0") => rt::run_case(items, orc, |it| m121a::N0Parser::new().parse(it)),
-        ("m122t", "N0") => rt::run_case(items, orc, |it| m122t::N0Parser::new().parse(it)),
-        ("m122a", "N0") => rt::run_case(items, orc, |it| m122a::N0Parser::new().parse(it)),
-        ("m124t", "N0") => rt::run_case(items, orc, |it| m124t::N0Parser::new().parse(it)),
-        ("m124a", "N0") => rt::run_case(items, orc, |it| m124a::N0Parser::new().parse(it)),
-        ("m125t", "N0") => rt::run_case(items, orc, |it| m125t::N0Parser::new().parse(it)),
-        ("m125a", "N0") => rt::run_case(items, orc, |it| m125a::N0Parser::new().parse(it)),
-        ("m126t", "N0") => rt::run_case(items, orc, |it| m126t::N0Parser::new().parse(it)),
-        ("m126a", "N0") => rt::run_case(items, orc, |it| m126a::N0Parser::new().parse(it)),
-        ("m128t", "N0") => rt::run_case(items, orc, |it| m128t::N0Parser::new().parse(it)),
-        ("m128a", "N0") => rt::run_case(items, orc, |it| m128a::N0Parser::new().parse(it)),
-        ("m130t", "N0") => rt::run_case(items, orc, |it| m130t::N0Parser::new().parse(it)),
-        ("m130a", "N0") => rt::run_case(items, orc, |it| m130a::N0Parser::new().parse(it)),
-        ("m131t", "N0") => rt::run_case(items, orc, |it| m131t::N0Parser::new().parse(it)),
-        ("m131a", "N0") => rt::run_case(items, orc, |it| m131a::N0Parser::new().parse(it)),
-        ("m133t", "N0") => rt::run_case(items, orc, |it| m133t::N0Parser::new().parse(it)),
-        ("m133a", "N0") => rt::run_case(items, orc, |it| m133a::N0Parser::new().parse(it)),
-        ("m135t", "N0") => rt::run_case(items, orc, |it| m135t::N0Parser::new().parse(it)),
-        ("m135a", "N0") => rt::run_case(items, orc, |it| m135a::N0Parser::new().parse(it)),
-        ("m138t", "N0") => rt::run_case(items, orc, |it| m138t::N0Parser::new().parse(it)),
-        ("m138a", "N0") => rt::run_case(items, orc, |it| m138a::N0Parser::new().parse(it)),
-        ("m139t", "N0") => rt::run_case(items, orc, |it| m139t::N0Parser::new().parse(it)),
-        ("m139a", "N0") => rt::run_case(items, orc, |it| m139a::N0Parser::new().parse(it)),
-        ("m140t", "N0") => rt::run_case(items, orc, |it| m140t::N0Parser::new().parse(it)),
-        ("m140a", "N0") => rt::run_case(items, orc, |it| m140a::N0Parser::new().parse(it)),
-        ("m141t", "N0") => rt::run_case(items, orc, |it| m141t::N0Parser::new().parse(it)),
-        ("m141a", "N0") => rt::run_case(items, orc, |it| m141a::N0Parser::new().parse(it)),
-        ("m145t", "N0") => rt::run_case(items, orc, |it| m145t::N0Parser::new().parse(it)),
-        ("m145a", "N0") => rt::run_case(items, orc, |it| m145a::N0Parser::new().parse(it)),
-        ("m147t", "N0") => rt::run_case(items, orc, |it| m147t::N0Parser::new().parse(it)),
-        ("m147a", "N0") => rt::run_case(items, orc, |it| m147a::N0Parser::new().parse(it)),
-        ("m149t", "N0") => rt::run_case(items, orc, |it| m149t::N0Parser::new().parse(it)),
-        ("m149a", "N0") => rt::run_case(items, orc, |it| m149a::N0Parser::new().parse(it)),
-        ("m150t", "N0") => rt::run_case(items, orc, |it| m150t::N0Parser::new().parse(it)),
-        ("m150a", "N0") => rt::run_case(items, orc, |it| m150a::N0Parser::new().parse(it)),
-        ("m151t", "N0") => rt::run_case(items, orc, |it| m151t::N0Parser::new().parse(it)),
-        ("m151a", "N0") => rt::run_case(items, orc, |it| m151a::N0Parser::new().parse(it)),
-        ("m154t", "N0") => rt::run_case(items, orc, |it| m154t::N0Parser::new().parse(it)),
-        ("m154a", "N0") => rt::run_case(items, orc, |it| m154a::N0Parser::new().parse(it)),
-        ("m156t", "N0") => rt::run_case(items, orc, |it| m156t::N0Parser::new().parse(it)),
-        ("m156a", "N0") => rt::run_case(items, orc, |it| m156a::N0Parser::new().parse(it)),
-        ("m157t", "N0") => rt::run_case(items, orc, |it| m157t::N0Parser::new().parse(it)),
-        ("m157a", "N0") => rt::run_case(items, orc, |it| m157a::N0Parser::new().parse(it)),
-        ("m159t", "N0") => rt::run_case(items, orc, |it| m159t::N0Parser::new().parse(it)),
-        ("m159a", "N0") => rt::run_case(items, orc, |it| m159a::N0Parser::new().parse(it)),
-        ("m160t", "N0") => rt::run_case(items, orc, |it| m160t::N0Parser::new().parse(it)),
-        ("m160a", "N0") => rt::run_case(items, orc, |it| m160a::N0Parser::new().parse(it)),
-        ("m162t", "N0") => rt::run_case(items, orc, |it| m162t::N0Parser::new().parse(it)),
-        ("m162a", "N0") => rt::run_case(items, orc, |it| m162a::N0Parser::new().parse(it)),
-        ("m164t", "N0") => rt::run_case(items, orc, |it| m164t::N0Parser::new().parse(it)),
-        ("m164a", "N0") => rt::run_case(items, orc, |it| m164a::N0Parser::new().parse(it)),
             _ => "NOPARSER".to_string(),
         };
         writeln!(out, "{}", r).unwrap();
